@@ -40,6 +40,7 @@ import (
 func init() {
 	props["C01W"] = c01w{flavor: "c01w"}
 	props["C05W"] = c01w{flavor: "c05w"}
+	props["C08W"] = c01w{flavor: "c08w"}
 }
 
 type c01w struct{ flavor string }
@@ -225,7 +226,34 @@ func (c01w) Exec(in Sx) (Sx, bool) {
 	out := []Sx{}
 	for _, op := range in.Nth(3).List {
 		if op.Nth(0).Int() == 9 {
-			return Sx{}, false // no corruption events: the medium is the constructor's own
+			// corruption of the constructor's own medium: the blocks file (shared with the
+			// store's memory mapping).  Only with the validating CAS factory, only while no
+			// operation is parked, and - because every block is one sector whose in-memory
+			// image is rewritten by the next upload into it - only in cases that upload
+			// nothing afterwards (the generator's business; see Gen).
+			r, off, ln := op.Nth(1).Int(), op.Nth(2).Int(), op.Nth(3).Int()
+			if !device || ac || len(st.threads) > 0 || r < 0 || off < 0 || ln < 0 || off+ln > bs || r >= spare+old+cur+nw {
+				return Sx{}, false
+			}
+			f, err := os.OpenFile(filepath.Join(dir, "blocks"), os.O_RDWR, 0)
+			if err != nil {
+				return Sx{}, false
+			}
+			buf := make([]byte, ln)
+			if _, err := f.ReadAt(buf, int64(r*bs+off)); err != nil && err != io.EOF {
+				f.Close()
+				return Sx{}, false
+			}
+			for k := range buf {
+				buf[k] ^= 0xff
+			}
+			_, err = f.WriteAt(buf, int64(r*bs+off))
+			f.Close()
+			if err != nil {
+				return Sx{}, false
+			}
+			out = append(out, st.obs(0, 0, LBytes(nil), atomic.LoadInt64(&st.negs), 0, -1))
+			continue
 		}
 		o, ok := st.step(op)
 		if !ok {
@@ -239,6 +267,9 @@ func (c01w) Exec(in Sx) (Sx, bool) {
 // ---- generation ----
 
 func (p c01w) Gen(r *Rand, idx int, tier string) Sx {
+	if p.flavor == "c08w" {
+		return c08wGen(r, tier)
+	}
 	ac := r.Chance(35)
 	hier := !ac && r.Chance(30)
 	old := r.Pick([]int{0, 1, 1, 2, 2, 3})
@@ -486,19 +517,95 @@ func (c01w) Class(in, obs Sx) (string, bool) {
 	if obs.Len() == 1 && obs.Nth(0).IsAtom {
 		return "wiring/refused/" + kind, true
 	}
-	reads, lost := 0, 0
+	reads, lost, detected := 0, 0, 0
 	for k, o := range obs.List {
 		if o.Len() >= 2 && o.Nth(0).Int() == 0 && in.Nth(3).Nth(k).Nth(0).Int() == 5 {
 			if o.Nth(1).Int() == 0 {
 				reads++
 			} else if o.Nth(1).Int() == 5 {
 				lost++
+			} else if o.Nth(1).Int() == 13 {
+				detected++
 			}
 		}
 	}
 	cls := "wiring/" + kind
+	if detected > 0 {
+		cls += "/detected"
+	}
 	if lost > 0 {
 		cls += "/evictions"
 	}
-	return cls, reads > 0
+	return cls, reads > 0 || detected > 0
+}
+
+// c08wGen: quarantine through the constructor's wiring.  A CAS on a file-backed block device
+// (key-location map on a second file-backed device in 60% of the cases), old_blocks = 0 so that
+// no read ever refreshes (nothing is written after the corruption: a write into a block would
+// rewrite its sector from the in-memory image and heal it), several objects per block; then the
+// whole medium is garbled, one object is read (detection: quarantine up to its block) and every
+// object is looked up again by Get and FindMissing.
+func c08wGen(r *Rand, tier string) Sx {
+	sectorSize := c01wSectorSize()
+	if sectorSize == 0 {
+		sectorSize = 4096
+	}
+	hier := r.Chance(25)
+	old, cur, nw, spare := 0, r.Intn(3), 1+r.Intn(3), 1+r.Intn(2)
+	n := spare + old + cur + nw
+	sectorCount := n + r.Intn(n)
+	fileSize := sectorCount * sectorSize
+	bs := sectorSize * (sectorCount / n)
+	anc := stAncTemplates[r.Intn(3)]
+	names, _ := stInstanceNames(stAncSx(anc))
+	nobj := 5 + r.Intn(4)
+	objs := [][]byte{}
+	for len(objs) < nobj {
+		sz := bs/8 + r.Intn(bs/2)
+		b := make([]byte, sz)
+		for j := range b {
+			b[j] = byte(1 + r.Intn(250))
+		}
+		b[0] = byte(len(objs) + 1)
+		objs = append(objs, b)
+	}
+	nextTid := 0
+	ops := []Sx{}
+	inst := func() int { return r.Intn(len(anc)) }
+	where := make([]int, nobj)
+	for o := range where {
+		where[o] = inst()
+	}
+	nput := 4 + r.Intn(8)
+	for k := 0; k < nput; k++ {
+		o := r.Intn(nobj)
+		t := nextTid
+		nextTid++
+		ops = append(ops, L(A(1), AI(t), AI(o), AI(where[o])), L(A(2), AI(t), LBytes(objs[o])), L(A(3), AI(t), A(0)))
+	}
+	for reg := 0; reg < n; reg++ {
+		ops = append(ops, L(A(9), AI(reg), A(0), AI(bs)))
+	}
+	get := func(o int) {
+		t := nextTid
+		nextTid++
+		ops = append(ops, L(A(4), AI(t), AI(o), AI(where[o])), L(A(5), AI(t)))
+	}
+	get(r.Intn(nobj))
+	for k := 0; k < 3+r.Intn(5); k++ {
+		if r.Chance(55) {
+			get(r.Intn(nobj))
+		} else {
+			o := r.Intn(nobj)
+			ops = append(ops, L(A(6), L(L(AI(o), AI(where[o])))))
+		}
+	}
+	_ = names
+	objSx := []Sx{}
+	for _, o := range objs {
+		objSx = append(objSx, LBytes(o))
+	}
+	wcfg := L(AB(false), AB(hier), AI(old), AI(cur), AI(nw), AB(true), AI(spare), AI(0), AI(sectorSize), AI(sectorCount),
+		AB(r.Chance(60)), AI(4000+r.Intn(6000)), AI(8+r.Intn(16)), AI(32+r.Intn(64)), AI(fileSize))
+	return L(wcfg, L(objSx...), stAncSx(anc), L(ops...))
 }
